@@ -273,8 +273,8 @@ def prop_tables(case, ctx):
 
 
 PROPS = [
-    Prop("gridgame", lambda tier: layouts(tier), prop_gridgame, quick=160, thorough=2400,
+    Prop("gridgame", lambda tier: layouts(tier), prop_gridgame, quick=160, thorough=7200,
          doc="all 25 joint actions at every visited reachable state of generated layouts: normalisation and physical constraints"),
-    Prop("tables", lambda tier: table_pairs(tier), prop_tables, quick=3000, thorough=60000,
+    Prop("tables", lambda tier: table_pairs(tier), prop_tables, quick=3000, thorough=180000,
          doc="DiscreteFactorTable product (natural join), weighted mixture and marginalisation vs exact Fractions"),
 ]
